@@ -39,9 +39,9 @@ protocol and evidence are as designed in section 2. Deviations, all in the direc
 
 ADDITIONS = """### 10.5 What the seeded rounds changed in the checks
 
-Forty changes from two independent rounds (fresh sub-agents, property text only) were confirmed and run; 34 were detected by the quick tier as first built,
-two only by the thorough tier, four not at all. Every miss pointed at a *class* of input the generator did not produce, and the checks were extended for the
-class, not for the patch:
+Sixty changes from three independent rounds (fresh sub-agents, property text only; the second and third round were told which *kinds* of change earlier rounds
+had produced and asked for different ones) were confirmed and run. 45 were detected by the quick tier as it stood, two more only by the thorough tier, 13 not at all.
+Every miss pointed at a *class* of input the generator did not produce, and the checks were extended for the class, not for the patch:
 
 * **State carried between calls.** C01, C02 (`pre`: the same / other expressions evaluated first by fresh engines - module-level caches), C06 (`hist`: the final
   electorate reached through add_agent / remove_agent / set_agent_weight / set_strategy with earlier votes and statistics calls, plus a history-independence oracle
@@ -52,9 +52,15 @@ class, not for the patch:
 * **Shapes the generator under-produced.** C16: wires are generated against a random topological order (producers declared after consumers, parallel wires from one
   producer). C02: string literals with runs of blanks, tabs, NBSP and other Unicode spaces. C03: tools requested as an argument of another tool, inside arithmetic and
   inside a comparison. C08: 40 % of the histories start by tripping the breaker and waiting out the timeout so that probes are common.
+* **Round 3 (two cooperating edits, unusual legal values, callback exceptions, second entry points).** C03: tools requested under other spellings of their name (upper,
+  title, padded). C06: seating-order invariance S9 (decisions are functions of the ballots; float near-ties excluded by an exact-rational guard) and saturating Bayesian
+  weights. C07/C08/C06/C13/C14/C18/C19: the exception raised by stub agents, digesters, work/validate functions, generators, workers, gates, processors and handlers is drawn
+  from 16 types (TimeoutError, TypeError, StopIteration, ...), not one fixed type. C11: JSON values of the wrong type for their field (bool for str, number for bool, ...)
+  plus an enumerated single-field table. C14: operations retried under the same id (incl. equal priorities) and a global invariant "no ended operation owns a resource"
+  after every step, kill and maintenance call. C15: one operation blocked on two different owners. C17: system histories install suppression rules. C19: stage names may repeat.
 * **One oracle bug found on the way** (no registered run was affected): C02 compared complex NaN results with `==`; now component-wise with NaN == NaN.
 
-After these changes all forty seeded changes are detected by the quick tier (table above; `python3 tools/run_mutants.py --seeded` re-runs them).
+After these changes all sixty seeded changes are detected by the quick tier (table above; `python3 tools/run_mutants.py --seeded` re-runs them).
 """
 
 
